@@ -86,6 +86,8 @@ pub(crate) mod raft_log;
 pub(crate) mod testing;
 
 pub mod types;
+#[cfg(feature = "verif-hooks")]
+pub mod verif_hooks;
 pub use codeq;
 
 pub mod api;
